@@ -6,6 +6,7 @@ import (
 	"encoding/hex"
 	"fmt"
 	"math"
+	"math/big"
 	"strconv"
 	"strings"
 
@@ -215,8 +216,55 @@ func (f *fakeState) Width() (int, bool)          { return f.width, f.has }
 func (f *fakeState) Precision() (int, bool)      { return 0, false }
 func (f *fakeState) Flag(c int) bool             { return strings.ContainsRune(f.flags, rune(c)) }
 
+// precisionProbes calls the functions that index tables by precision (the pre-rounded ln(10) constants,
+// loop bounds, working precisions) at every precision next to a power of two and next to the length of
+// the constants' digit strings: where a table lookup or a bound is one off, it is there.
+func (rn *runner) precisionProbes() {
+	var ps []uint32
+	for k := uint(0); k <= 11; k++ {
+		for d := -3; d <= 2; d++ {
+			if p := (1 << k) + d; p >= 1 {
+				ps = append(ps, uint32(p))
+			}
+		}
+	}
+	for p := 2990; p <= 3014; p++ {
+		ps = append(ps, uint32(p))
+	}
+	ps = append(ps, 4095, 4096, 4097)
+	two, half, ten := apd.New(2, 0), apd.New(5, -1), apd.New(10, 0)
+	for _, p := range ps {
+		c := apd.BaseContext.WithPrecision(p)
+		rn.apiCase("PrecProbe", fmt.Sprintf("ln-log10 %d", p), func() {
+			var d apd.Decimal
+			_, _ = c.Ln(&d, two)
+			_, _ = c.Ln(&d, half)
+			_, _ = c.Log10(&d, two)
+			_, _ = c.Log10(&d, ten)
+		})
+		if p <= 300 || p >= 2990 {
+			rn.apiCase("PrecProbe", fmt.Sprintf("exp-pow-roots %d", p), func() {
+				var d apd.Decimal
+				_, _ = c.Exp(&d, two)
+				_, _ = c.Pow(&d, two, half)
+				_, _ = c.Sqrt(&d, two)
+				_, _ = c.Cbrt(&d, two)
+			})
+		}
+	}
+	// Pow works at max(Precision, digits of the base)+10: a long base at a small precision
+	for _, n := range []int{2036, 2037, 2038, 2039, 2040, 2990, 3000} {
+		x := decFromBig(new(big.Int).Sub(pow10(n), big.NewInt(3)), int64(-n+1), false)
+		rn.apiCase("PrecProbe", fmt.Sprintf("pow-long-base %d", n), func() {
+			var d apd.Decimal
+			_, _ = apd.BaseContext.WithPrecision(5).Pow(&d, x, half)
+		})
+	}
+}
+
 func (rn *runner) streamTotal(g *gen) {
 	verbs := []rune{'e', 'E', 'f', 'F', 'g', 'G', 'v', 's', 'd', 'x', 'q'}
+	rn.precisionProbes()
 	for i := 0; i < rn.n; i++ {
 		c := g.ctx(true, false)
 		x := g.decimal(c, false)
